@@ -4,6 +4,8 @@ import (
 	"bufio"
 	"errors"
 	"fmt"
+	"io"
+	"net/http"
 	"math/rand"
 	"net"
 	"path/filepath"
@@ -12,6 +14,9 @@ import (
 	"sync"
 	"sync/atomic"
 	"time"
+
+	"golang.org/x/net/http2"
+	"golang.org/x/net/http2/h2c"
 
 	"verif/internal/core"
 	"verif/internal/fakes"
@@ -547,6 +552,7 @@ func C02(r *core.Run) {
 		}
 		r.Sample(map[string]interface{}{"sent": g, "received_start_line": got[0].StartLine, "received_fields": len(got[0].Fields)})
 	}
+	c02H2(r, md, serverBin, agentBin)
 	judgeProcs(r, true, server, agent)
 	killAll(agent, server)
 	// Races are listed but only attributed ones decide (anchors: server.go, utils.go, agent.go)
@@ -588,4 +594,109 @@ func waitReady(addr string, procs ...*core.Proc) error {
 		}
 		time.Sleep(100 * time.Millisecond)
 	}
+}
+
+// c02H2 is the HTTP/2 flavour: the agent runs with --force-http2 against an
+// h2c recording backend; the same generator and oracle apply, minus what
+// HTTP/2 framing itself legitimately changes (Cookie crumbling).
+func c02H2(r *core.Run, md *fakes.Metadata, serverBin, agentBin string) {
+	var mu sync.Mutex
+	got := map[string][]*rawhttp.Message{}
+	l, err := net.Listen("tcp", "127.0.0.1:0")
+	if err != nil {
+		r.Broken(err.Error())
+		return
+	}
+	defer l.Close()
+	handler := http.HandlerFunc(func(w http.ResponseWriter, req *http.Request) {
+		body, _ := io.ReadAll(req.Body)
+		m := &rawhttp.Message{Method: req.Method, Target: req.RequestURI, Body: body}
+		m.Fields = append(m.Fields, rawhttp.Field{Name: "Host", Value: req.Host})
+		for k, vs := range req.Header {
+			for _, v := range vs {
+				m.Fields = append(m.Fields, rawhttp.Field{Name: k, Value: v})
+			}
+		}
+		mu.Lock()
+		got[req.Header.Get("X-Tok")] = append(got[req.Header.Get("X-Tok")], m)
+		mu.Unlock()
+		w.Write([]byte("ok"))
+	})
+	srv := &http.Server{Handler: h2c.NewHandler(handler, &http2.Server{MaxReadFrameSize: 1 << 20})}
+	go srv.Serve(l)
+	defer srv.Close()
+	server, addr, err := startServer(r, serverBin, "server-h2")
+	if err != nil {
+		r.Broken(err.Error())
+		return
+	}
+	defer server.Kill()
+	agent, err := startAgent(r, agentBin, "agent-h2", md, "http://"+addr+"/", l.Addr().String(), "b2h2", "--force-http2=true")
+	if err != nil {
+		r.Broken(err.Error())
+		return
+	}
+	defer agent.Kill()
+	if err := waitReady(addr, agent, server); err != nil {
+		r.Broken("h2 flavour: " + err.Error())
+		return
+	}
+	rng := r.Rand("c02h2")
+	n := r.Pick(150, 3000)
+	var gens []*genReq
+	for i := 0; i < n; i++ {
+		g := genRequest(rng, fmt.Sprintf("s%dh2n%d", r.Seed, i), false)
+		var keep []rawhttp.Field
+		for _, f := range g.Fields {
+			if !strings.EqualFold(f.Name, "Cookie") { // HTTP/2 may split and re-join cookie pairs
+				keep = append(keep, f)
+			}
+		}
+		g.Fields = keep
+		g.Class = "h2|" + g.Class
+		gens = append(gens, g)
+	}
+	ch := make(chan *genReq)
+	var wg sync.WaitGroup
+	var failures int64
+	for wkr := 0; wkr < 6; wkr++ {
+		wg.Add(1)
+		go func() {
+			defer wg.Done()
+			cl := rawhttp.NewClient(addr, 30*time.Second)
+			defer cl.Close()
+			for g := range ch {
+				if atomic.LoadInt64(&failures) >= 24 {
+					continue
+				}
+				if _, err := cl.Do(g.wire(), g.Method); err != nil {
+					atomic.AddInt64(&failures, 1)
+				}
+			}
+		}()
+	}
+	for _, g := range gens {
+		ch <- g
+	}
+	close(ch)
+	wg.Wait()
+	for _, g := range gens {
+		if atomic.LoadInt64(&failures) >= 24 {
+			r.Violate("C02:h2:request-not-delivered", "well-formed requests repeatedly got no response through the --force-http2 agent", g, nil)
+			break
+		}
+		r.Case(g.Class)
+		mu.Lock()
+		ms := got[g.Tok]
+		mu.Unlock()
+		if len(ms) != 1 {
+			r.Violate("C02:h2:delivery-count", fmt.Sprintf("h2c backend saw request %s %d times (%s %s)", g.Tok, len(ms), g.Method, g.Target), g, nil)
+			continue
+		}
+		if bad := compareRequest(g, ms[0]); len(bad) > 0 {
+			r.Violate("C02:h2:"+diffKind(bad[0]), fmt.Sprintf("h2c backend: %s %s: %s", g.Method, g.Target, strings.Join(bad, "; ")), g, map[string]interface{}{"received_fields": ms[0].Fields, "received_target": ms[0].Target})
+		}
+	}
+	r.Add("h2_backend_requests", len(gens))
+	judgeProcs(r, true, server, agent)
 }
